@@ -63,6 +63,7 @@ class Helper:
         self.name = fn.name
         a = fn.args
         self.params = [x.arg for x in a.posonlyargs + a.args]
+        self.vararg = a.vararg.arg if a.vararg else None
         self.defaults = {}
         pos = a.posonlyargs + a.args
         for p, d in zip(pos[len(pos) - len(a.defaults):], a.defaults):
@@ -80,7 +81,7 @@ def _candidate(fn, in_class):
         if not name.startswith("_") or name.startswith("__") and name.endswith("__"):
             return None
     a = fn.args
-    if a.vararg or a.kwarg or a.kwonlyargs:
+    if a.kwarg or a.kwonlyargs:
         return None
     decos = [d.id if isinstance(d, ast.Name) else None for d in fn.decorator_list]
     kind = "method" if in_class else "function"
@@ -145,6 +146,7 @@ class Inliner:
         self.helpers = {}  # (clsname or None, name) -> Helper
         self.n_inlined = 0
         self.inlined_names = set()
+        self.local = {}  # nested step functions of the function being transformed
         for st in tree.body:
             if isinstance(st, ast.FunctionDef):
                 k = _candidate(st, False)
@@ -164,7 +166,7 @@ class Inliner:
         if any(isinstance(a, ast.Starred) for a in call.args) or any(k.arg is None for k in call.keywords):
             return None
         if isinstance(f, ast.Name):
-            h = self.helpers.get((None, f.id))
+            h = self.local.get(f.id) or self.helpers.get((None, f.id))
             return (h, None) if h else None
         if isinstance(f, ast.Attribute) and isinstance(f.value, ast.Name) and clsname is not None:
             h = self.helpers.get((clsname, f.attr))
@@ -188,8 +190,10 @@ class Inliner:
                 mapping[sp] = args.pop(0)
             else:
                 mapping[sp] = recv
-        if len(args) > len(params):
+        if len(args) > len(params) and h.vararg is None:
             return None
+        if h.vararg is not None:
+            mapping[h.vararg] = ast.Tuple(elts=args[len(params):], ctx=ast.Load())
         for p, a in zip(params, args):
             mapping[p] = a
         for k in call.keywords:
@@ -346,6 +350,8 @@ class Inliner:
             roots = [("iter", st.iter)]
         elif isinstance(st, ast.If):
             roots = [("test", st.test)]
+        elif isinstance(st, ast.Raise) and st.exc is not None:
+            roots = [("exc", st.exc)]
         else:
             return []
         pre = []
@@ -410,19 +416,93 @@ class Inliner:
             out.append(st)
         return out
 
+    # ---------------------------------------------------- nested step functions
+    def _nested_defs(self, fn):
+        """FunctionDefs nested in fn's blocks (not inside other defs) with their owning statement lists"""
+        out = []
+
+        def walk(stmts):
+            for st in stmts:
+                if isinstance(st, ast.FunctionDef):
+                    out.append((st, stmts))
+                    continue
+                if isinstance(st, (ast.AsyncFunctionDef, ast.ClassDef)):
+                    continue
+                for field in ("body", "orelse", "finalbody"):
+                    blk = getattr(st, field, None)
+                    if isinstance(blk, list) and blk and isinstance(blk[0], ast.stmt):
+                        walk(blk)
+                if isinstance(st, ast.Try):
+                    for h in st.handlers:
+                        walk(h.body)
+        walk(fn.body)
+        return out
+
+    def _local_candidate(self, d, fn):
+        """a nested def is a step function when it is plain (no decorator, generator, nonlocal, recursion, *kw) and its
+        name is only ever called directly in the enclosing function (never passed or stored as a value)"""
+        if d.decorator_list or d.args.kwarg or d.args.kwonlyargs:
+            return False
+        if _contains(d, (ast.Yield, ast.YieldFrom, ast.Await, ast.Global, ast.Nonlocal)):
+            return False
+        if _contains(d, (ast.ClassDef, ast.FunctionDef, ast.AsyncFunctionDef), stop_at_defs=False):
+            return False
+        for n in ast.walk(d):
+            if isinstance(n, ast.Name) and n.id == d.name:
+                return False
+        called = set()
+        n_defs = 0
+        for n in ast.walk(fn):
+            if isinstance(n, ast.FunctionDef) and n.name == d.name:
+                n_defs += 1
+            if isinstance(n, ast.Call) and isinstance(n.func, ast.Name) and n.func.id == d.name:
+                called.add(id(n.func))
+        if n_defs != 1:
+            return False
+        for n in ast.walk(fn):
+            if isinstance(n, ast.Name) and n.id == d.name and id(n) not in called:
+                return False
+        # parameters of the step function must not be captured by a lambda/closure default trick; keep it simple
+        return True
+
+    def transform_function(self, fn, clsname, selfname):
+        saved = self.local
+        self.local = {}
+        nested = self._nested_defs(fn)
+        for d, _owner in nested:
+            if self._local_candidate(d, fn):
+                self.local[d.name] = Helper(d, None, "function")
+        fn.body = self.transform_body(fn.body, clsname, selfname)
+        if self.local:
+            for d, _owner in self._nested_defs(fn):
+                if d.name in self.local and d.name in self.inlined_names:
+                    still = any(isinstance(n, ast.Name) and n.id == d.name for n in ast.walk(fn))
+                    if not still:
+                        self._remove_stmt(fn, d)
+        self.local = saved
+
+    def _remove_stmt(self, fn, target):
+        for n in ast.walk(fn):
+            for field in ("body", "orelse", "finalbody"):
+                blk = getattr(n, field, None)
+                if isinstance(blk, list) and any(x is target for x in blk):
+                    new = [x for x in blk if x is not target]
+                    if not new and field == "body":
+                        new = [ast.Pass()]
+                    setattr(n, field, new)
+                    return
+
     def _depth_ok(self):
         self._depth = getattr(self, "_depth", 0) + 1
         return self._depth < 200
 
     def run(self):
-        if not self.helpers:
-            return 0
         for _ in range(4):
             before = self.n_inlined
             self._depth = 0
             for st in self.tree.body:
                 if isinstance(st, ast.FunctionDef):
-                    st.body = self.transform_body(st.body, None, None)
+                    self.transform_function(st, None, None)
                 elif isinstance(st, ast.ClassDef):
                     for m in st.body:
                         if isinstance(m, ast.FunctionDef):
@@ -430,7 +510,7 @@ class Inliner:
                             decos = [d.id for d in m.decorator_list if isinstance(d, ast.Name)]
                             if "staticmethod" not in decos and m.args.args:
                                 selfname = m.args.args[0].arg
-                            m.body = self.transform_body(m.body, st.name, selfname)
+                            self.transform_function(m, st.name, selfname)
             if self.n_inlined == before:
                 break
         self._drop_unreferenced()
